@@ -10,6 +10,7 @@ let predict (c : string) (obs : string) : string * string * bool =
   | ["conc"; tree; s; plan] -> C02conc.conc_case tree (s = "S") plan obs
   | ["race"; tree; _; _] -> C02conc.race_case tree obs
   | ["srace"; tree; _; _] -> C02conc.race_case ~self:true tree obs
+  | ["urace"; tree; g; per; _] -> C02conc.urace_case tree (int_of_string g) (int_of_string per) obs
   | ["fact"; tree; k; ops] -> C02fact.fact_case tree (int_of_string k) ops obs
   | _ -> ("unknown-case", "BAD:unknown-case", false)
 
